@@ -211,17 +211,22 @@ def AccN (s0 : St) (pre : List Kind) (s1 : St) : Prop :=
 theorem tri_normalize (s0 : St) (pre : List Kind) : Tri (Acc s0 pre) rcNormalize (fun _ s1 => AccN s0 pre s1) :=
   fun s hacc u s1 hn => ⟨s, hacc, rcNormalize_ok s u s1 hn⟩
 
-theorem tri_directStep (s0 : St) (pre : List Kind) :
+/-- the direct-bit step, for an abstract core (`directCore` must not be unfolded by the defeq checker: its
+    `/ 2147483648` sends `whnf` into the literal) -/
+theorem tri_coreStep (core : Rc → Nat × Rc) (hcore : ∀ rc, (core rc).2.range = opR rc.range { kind := .direct })
+    (s0 : St) (pre : List Kind) :
     Tri (AccN s0 pre)
       (fun s : St =>
-        let r := directCore (Rc.mk s.range s.code)
+        let r := core (Rc.mk s.range s.code)
         EStateM.Result.ok r.1 { s with range := r.2.range, code := r.2.code } : M Nat)
       (fun _ s2 => Acc s0 (pre ++ [D]) s2) := by
   intro s1 hp b s2 e
   obtain ⟨s, hacc, n1, n2, n3⟩ := hp
   injection e with _ h2
   refine hacc.snoc { kind := .direct } (fun hk => by cases hk) ?_ ?_ ?_
-  · rw [← h2, ← n1]; exact directCore_range _
+  · have hd := hcore (Rc.mk s1.range s1.code)
+    rw [← h2, ← n1]
+    exact hd
   · rw [← h2, ← n2]
   · rw [← h2]; unfold PI; show ∀ i, i < s1.probs.size → _; rw [n3]; exact hacc.1
 
@@ -234,7 +239,7 @@ theorem trb_rcDirect : ∀ (n dest : Nat) (pre : List Kind),
   | n + 1, dest, pre => by
     unfold rcDirect
     intro s0
-    refine Tri.bind (tri_normalize s0 pre) (fun _ => Tri.bind (tri_directStep s0 pre) (fun b => ?_))
+    refine Tri.bind (tri_normalize s0 pre) (fun _ => Tri.bind (tri_coreStep directCore directCore_range s0 pre) (fun b => ?_))
     refine Tri.weaken (trb_rcDirect n _ (pre ++ [D]) s0) (fun _ h => h) (fun _ s' h => ?_)
     obtain ⟨sh, hsh, hacc2⟩ := h
     exact ⟨sh, by rw [hsh, replicate_snoc], hacc2⟩
@@ -468,5 +473,19 @@ theorem trb_decodeSymbol (ev : Bool) : TrB (decodeSymbol ev) [] (fun _ sh => sh 
             · exact mem_long4 hl
             · exact mem_long4 hl
             · exact mem_long5 hl
+
+/-- ONE SYMBOL of the executable decoder reads at most 20 bytes: from any range a finished symbol or `rc_reset` leaves
+    (≥ 8192·31, < 2^32) and probabilities in [31, 2017], a call of `decodeSymbol` that completes has moved the input cursor by at
+    most 20, and leaves a range and probabilities satisfying the same conditions (so the bound chains over all symbols).
+    `hall` is `Props/C04.symbol_shapes_ok` (every shape is within the range-shrink budget; `decide +kernel`). -/
+theorem decodeSymbol_bytes (hall : symbolShapes.all shapeOk = true) (ev : Bool) (s s' : St) (pend : Pending)
+    (hlo : 253952 ≤ s.range) (hhi : s.range < U32) (hpi : PI s) (h : decodeSymbol ev s = .ok pend s') :
+    s.inPos ≤ s'.inPos ∧ s'.inPos ≤ s.inPos + 20 ∧ 253952 ≤ s'.range ∧ s'.range < U32 ∧ PI s' := by
+  obtain ⟨sh, hmem, hpi', hle, ops, hok, hsh, hrun⟩ := trb_decodeSymbol ev s s (Acc.init s hpi) pend s' h
+  have hs : shapeOk (shapeOf ops) = true := by rw [hsh]; exact List.all_eq_true.mp hall _ hmem
+  have hb := symbol_bound_of_shape ops s.range hs hok hlo hhi
+  rw [hrun] at hb
+  simp only [] at hb
+  exact ⟨hle, by omega, hb.2.1, hb.2.2, hpi'⟩
 
 end XzVerif.C04Sym
